@@ -16,9 +16,8 @@ package mathx
 //@   assigns nothing
 
 // Restatement for callers in model real (finite x).
-//@ assume func Sign@real
+//@ func Sign@real
 //@   model real
-//@   trusted restatement for finite x of the contract proved in model xreal
 //@   ensures (x == 0 ==> result == 0) && (x < 0 ==> result == -1) && (x > 0 ==> result == 1)
 //@   assigns nothing
 
